@@ -139,7 +139,8 @@ def key(rng: random.Random, int_ratio: float = 0.2, long_ratio: float = 0.05) ->
 
 def number_like(rng: random.Random) -> str:
     return rng.choice(["1", "-3", "+7", "007", "1.5", "-.5", "5.", "1e3", "1E-3", "2.5e+10", "1.e-03", "0", "-0", "1_000",
-                       "0x10", "1e", "e5", "2024-01", "+", "5-5", "١٢", "1.2.3", "inf", "nan", "1e400"])
+                       "0x10", "1e", "e5", "2024-01", "+", "5-5", "١٢", "1.2.3", "inf", "nan", "1e400",
+                       "+-5", "--1", "-+20", "++3", "+-", "-+", "--", "1-", "+-1.5", "--.5", "-+1e3", "+ 5", "٣", "-٣", "²", "1²"])
 
 
 def boolnone_like(rng: random.Random) -> str:
@@ -221,7 +222,24 @@ def tree(rng: random.Random, depth: int = 3, width: int = 4, leaf=scalar, key_fn
     if r < p_dict:
         return tree_dict(rng, depth - 1, width, leaf, key_fn, p_dict, p_list)
     n = rng.choice([0, 1, 2, 3, 3, 5, 11, 21]) if rng.random() < 0.3 else rng.randint(0, width)
-    return [tree(rng, depth - 1, width, leaf, key_fn, True, p_dict, p_list) for _ in range(n)]
+    xs = [tree(rng, depth - 1, width, leaf, key_fn, True, p_dict, p_list) for _ in range(n)]
+    if xs and rng.random() < 0.15:
+        # an equal-valued number of another type in the same list (2 and 2.0, 1 and True, 1e16 and 10**16)
+        for x in list(xs):
+            t = numeric_twin(x)
+            if t is not None:
+                xs.insert(rng.randint(0, len(xs)), t); break
+    return xs
+
+
+def numeric_twin(x: Any) -> Any:
+    if isinstance(x, bool):
+        return int(x)
+    if isinstance(x, int) and abs(x) < 2**53:
+        return float(x)
+    if isinstance(x, float) and x == x and abs(x) < 2**53 and x == int(x):
+        return int(x)
+    return None
 
 
 def tree_dict(rng: random.Random, depth: int = 3, width: int = 4, leaf=scalar, key_fn=key, p_dict: float = 0.25,
